@@ -13,6 +13,7 @@ use std::io::{Read, Write};
 use std::net::{TcpListener, TcpStream, ToSocketAddrs};
 use std::path::{Path, PathBuf};
 use std::process::{Child, Command, Stdio};
+use std::sync::atomic::AtomicU64;
 use std::time::{Duration, Instant};
 use uuid::Uuid;
 
@@ -75,7 +76,24 @@ impl Launch {
     }
 }
 
+/// A loopback port nobody listens on. Many harness processes start servers at the same time: each
+/// process draws from a range of its own (by process id), so that two of them do not pick the
+/// same port between "found free" and "server bound" - with kernel-chosen ephemeral ports that
+/// happened once in tens of thousands of launches, and a server that lost the race (exits with
+/// "address in use" while the winner's answers are taken for its own) looked like one that died.
 fn free_port(v6: bool) -> u16 {
+    static NEXT: AtomicU64 = AtomicU64::new(0);
+    let slot = (std::process::id() as u64) % 250;
+    for _ in 0..160 {
+        let k = NEXT.fetch_add(1, std::sync::atomic::Ordering::SeqCst) % 160;
+        let port = (20000 + slot * 160 + k) as u16;
+        let ok = if v6 { TcpListener::bind(("::1", port)).is_ok() } else { TcpListener::bind(("127.0.0.1", port)).is_ok() };
+        if ok {
+            return port;
+        }
+    }
+    // the whole range is busy (cannot happen with the numbers of launches in flight): let the
+    // kernel choose
     let l = if v6 { TcpListener::bind("[::1]:0") } else { TcpListener::bind("127.0.0.1:0") }.expect("bind port 0");
     l.local_addr().unwrap().port()
 }
@@ -272,8 +290,19 @@ fn start(l: &Launch, dir: &Path, addrs: &[String], ids: &Ids) -> Result<Running,
             }
         }
     }
+    // what the server says when it gives up (an address already in use is the environment's
+    // doing and is tried again by the callers, not a verdict)
+    static ERRLOG_N: AtomicU64 = AtomicU64::new(0);
+    let errlog = dir.parent().unwrap().join(format!("server-stderr-{}-{}.log", std::process::id(), ERRLOG_N.fetch_add(1, std::sync::atomic::Ordering::SeqCst)));
+    if let Ok(f) = std::fs::File::create(&errlog) {
+        cmd.stderr(Stdio::from(f));
+    }
     let child = cmd.spawn().map_err(|e| format!("cannot start {}: {e}", server_binary().display()))?;
     let mut r = Running { child, addrs: addrs.to_vec() };
+    let port_taken = |errlog: &Path| -> bool {
+        let t = std::fs::read_to_string(errlog).unwrap_or_default().to_ascii_lowercase();
+        t.contains("address already in use") || t.contains("address in use") || t.contains("addrinuse")
+    };
     // wait until the first address answers (the others are checked by the session itself)
     let t0 = Instant::now();
     loop {
@@ -284,9 +313,18 @@ fn start(l: &Launch, dir: &Path, addrs: &[String], ids: &Ids) -> Result<Running,
             if st.signal() == Some(9) {
                 return Err(format!("server was killed from outside ({st})"));
             }
+            if port_taken(&errlog) {
+                return Err(format!("a listen port was taken by another process ({st})"));
+            }
             return Err(format!("server exited at once with {st}"));
         }
         if http_raw(&addrs[0], "GET", "/", &[], None, false).is_ok() {
+            // the answer must be our server's: one that is about to exit because somebody else
+            // holds the port gets a moment to do so
+            std::thread::sleep(Duration::from_millis(15));
+            if let Ok(Some(st)) = r.child.try_wait() {
+                return Err(if port_taken(&errlog) { format!("a listen port was taken by another process ({st})") } else { format!("server exited at once with {st}") });
+            }
             return Ok(r);
         }
         if t0.elapsed() > Duration::from_secs(10) {
